@@ -67,6 +67,9 @@ pub enum Exit {
     IdleTimeout,
     /// statement_timeout = 150 ms and a statement the server sits on for 500 ms
     StmtTimeout,
+    /// the same, but the victim's socket is gone (true: reset, false: closed) 40 ms after it sent the statement, i.e. before
+    /// the pooler's statement timeout fires and tries to tell it
+    StmtTimeoutClientGone(bool),
 }
 
 #[derive(Clone, Debug, Serialize, Deserialize)]
@@ -120,6 +123,7 @@ pub fn case_strategy() -> BoxedStrategy<Case> {
         1 => prop_oneof![Just(b'z'), Just(b'0'), Just(b'Y'), Just(b'F')].prop_map(Exit::UnknownType),
         2 => Just(Exit::IdleTimeout),
         1 => Just(Exit::StmtTimeout),
+        2 => any::<bool>().prop_map(Exit::StmtTimeoutClientGone),
     ];
     (
         any::<bool>(),
@@ -145,7 +149,7 @@ impl Part for WirePart {
         true
     }
     fn rule(&self) -> String {
-        "pool_size=1; victim = session state created outside a transaction {SET untracked guc, SET ROLE, SQL PREPARE, named Parse} × server state at exit {idle, in txn, failed txn, COPY IN open (in/outside a block), COPY OUT unread, reply pending, unsynced batch} × exit {finish+stay, Terminate, drop, drop after k bytes of a Query/Parse/Bind/CopyData, malformed Close/Describe/Bind/Parse, Bind/Describe of unknown statement, unknown message type, idle-in-transaction timeout, statement timeout}; then a probe client runs tagged statements; oracle = mock's session state at the probe's first message on a reused backend connection + the probe reads its own rows. Non-trivial = victim left a non-idle server state or session state behind".into()
+        "pool_size=1; victim = session state created outside a transaction {SET untracked guc, SET ROLE, SQL PREPARE, named Parse} × server state at exit {idle, in txn, failed txn, COPY IN open (in/outside a block), COPY OUT unread, reply pending, unsynced batch} × exit {finish+stay, Terminate, drop, drop after k bytes of a Query/Parse/Bind/CopyData, malformed Close/Describe/Bind/Parse, Bind/Describe of unknown statement, unknown message type, idle-in-transaction timeout, statement timeout with the victim still there / already gone by close or by reset}; then a probe client runs tagged statements; oracle = mock's session state at the probe's first message on a reused backend connection + the probe reads its own rows. Non-trivial = victim left a non-idle server state or session state behind".into()
     }
     fn cases(&self, tier: Tier) -> u64 {
         tier.pick(2_400, 30_000)
@@ -173,7 +177,7 @@ fn config(mocks: &[crate::mock::MockServer], c: &Case) -> PgcatConfig {
     if c.cache {
         pool.set("prepared_statements_cache_size", "8");
     }
-    if c.exit == Exit::StmtTimeout {
+    if matches!(c.exit, Exit::StmtTimeout | Exit::StmtTimeoutClientGone(_)) {
         pool.users[0].extra.push(("statement_timeout".into(), "150".into()));
     }
     cfg.pools.push(pool);
@@ -411,6 +415,18 @@ async fn run_case(c: &Case, ctx: &mut WorkerCtx) -> Outcome {
             v.send(&proto::query(&format!("{} SELECT v FROM t /*@ delay=500 */", t.render()))).await;
             tokio::time::sleep(Duration::from_millis(260)).await;
         }
+        Exit::StmtTimeoutClientGone(rst) => {
+            let t = v.tag();
+            v.send(&proto::query(&format!("{} SELECT v FROM t /*@ delay=500 */", t.render()))).await;
+            tokio::time::sleep(Duration::from_millis(40)).await;
+            if *rst {
+                v.reset();
+            } else {
+                v.close();
+            }
+            // until the server has sent its late reply: on a connection that was wrongly kept it is then waiting to be read
+            tokio::time::sleep(Duration::from_millis(540)).await;
+        }
     }
     if c.session_mode && !victim_left {
         // in session mode the victim owns the only server until it disconnects
@@ -445,7 +461,7 @@ async fn run_case(c: &Case, ctx: &mut WorkerCtx) -> Outcome {
         o.sub_evaluations += 1;
         // the probe's own statement can run into the pool's statement_timeout when it was handed a connection on which the
         // victim's late reply is still outstanding: log in again and keep asking - that reply will surface as a foreign one
-        if c.exit == Exit::StmtTimeout && attempt < 5 && x.reply.iter().any(|m| m.code == b'E' && proto::error_message(&m.body).contains("statement timeout")) {
+        if matches!(c.exit, Exit::StmtTimeout | Exit::StmtTimeoutClientGone(_)) && attempt < 5 && x.reply.iter().any(|m| m.code == b'E' && proto::error_message(&m.body).contains("statement timeout")) {
             o.label("probe_hit_statement_timeout");
             tokio::time::sleep(Duration::from_millis(60)).await;
             match env.client(3 + attempt, "u", "db", "pw", &[]).await {
@@ -557,5 +573,7 @@ pub fn exit_name(e: &Exit) -> &'static str {
         Exit::UnknownType(_) => "unknown_type",
         Exit::IdleTimeout => "idle_timeout",
         Exit::StmtTimeout => "stmt_timeout",
+        Exit::StmtTimeoutClientGone(true) => "stmt_timeout_client_reset",
+        Exit::StmtTimeoutClientGone(false) => "stmt_timeout_client_closed",
     }
 }
